@@ -411,6 +411,63 @@ func registerIntercepts(g *Engine) {
 	}
 	ic["(*sync.Pool).Put"] = nop
 
+	// sync.Map: sequential map model (hidden entry list per object)
+	smap := func(e *Exec, p Value) *MapObj {
+		l := e.derefLoc(p.(PtrVal))
+		if m, ok := e.hidden[l]; ok {
+			return m.(MapVal).m
+		}
+		m := &MapObj{}
+		e.hidden[l] = MapVal{m}
+		return m
+	}
+	ic["(*sync.Map).Load"] = func(e *Exec, fn *ssa.Function, a []Value) Value {
+		if en := e.mapFind(smap(e, a[0]), a[1]); en != nil {
+			return TupleVal{en.v, e.tb.True()}
+		}
+		return TupleVal{IfaceVal{}, e.tb.False()}
+	}
+	ic["(*sync.Map).Store"] = func(e *Exec, fn *ssa.Function, a []Value) Value {
+		e.mapUpdate(MapVal{smap(e, a[0])}, a[1], a[2])
+		return nil
+	}
+	ic["(*sync.Map).LoadOrStore"] = func(e *Exec, fn *ssa.Function, a []Value) Value {
+		m := smap(e, a[0])
+		if en := e.mapFind(m, a[1]); en != nil {
+			return TupleVal{en.v, e.tb.True()}
+		}
+		m.entries = append(m.entries, &mapEntry{k: a[1], v: a[2]})
+		return TupleVal{a[2], e.tb.False()}
+	}
+	ic["(*sync.Map).LoadAndDelete"] = func(e *Exec, fn *ssa.Function, a []Value) Value {
+		if en := e.mapFind(smap(e, a[0]), a[1]); en != nil {
+			en.deleted = true
+			return TupleVal{en.v, e.tb.True()}
+		}
+		return TupleVal{IfaceVal{}, e.tb.False()}
+	}
+	ic["(*sync.Map).Delete"] = func(e *Exec, fn *ssa.Function, a []Value) Value {
+		e.mapDelete(MapVal{smap(e, a[0])}, a[1])
+		return nil
+	}
+	ic["(*sync.Map).Range"] = func(e *Exec, fn *ssa.Function, a []Value) Value {
+		m := smap(e, a[0])
+		for _, en := range append([]*mapEntry{}, m.entries...) {
+			if en.deleted {
+				continue
+			}
+			r := e.callFuncVal(a[1].(FuncVal), []Value{en.k, en.v}, e.curFrame)
+			if !e.branch(e.scalar(r)) {
+				break
+			}
+		}
+		return nil
+	}
+	ic["(*sync.Map).Clear"] = func(e *Exec, fn *ssa.Function, a []Value) Value {
+		smap(e, a[0]).entries = nil
+		return nil
+	}
+
 	// ----- sync/atomic -----
 	atomicLoad := func(e *Exec, fn *ssa.Function, a []Value) Value { return e.load(a[0].(PtrVal)) }
 	atomicStore := func(e *Exec, fn *ssa.Function, a []Value) Value { e.store(a[0].(PtrVal), a[1]); return nil }
@@ -692,6 +749,24 @@ func registerIntercepts(g *Engine) {
 		}
 		e.callFuncVal(a[2].(FuncVal), []Value{IfaceVal{t: types.NewPointer(l.typ), v: a[0]}}, e.curFrame)
 		return IfaceVal{}
+	}
+
+	ic["(*github.com/pion/ice/v4/internal/taskloop.Loop).CloseWithPreStop"] = func(e *Exec, fn *ssa.Function, a []Value) Value {
+		// close(done); preStop(); the wait for the loop goroutine (and its
+		// on-close callback) is outside the sequential model
+		l := e.derefLoc(a[0].(PtrVal))
+		st := l.typ.Underlying().(*types.Struct)
+		for i := 0; i < st.NumFields(); i++ {
+			if st.Field(i).Name() == "done" {
+				if ch := l.sub[i].v.(ChanVal); ch.c != nil && !ch.c.closed {
+					ch.c.closed = true
+					if fv := a[1].(FuncVal); fv.fn != nil {
+						e.callFuncVal(fv, nil, e.curFrame)
+					}
+				}
+			}
+		}
+		return nil
 	}
 
 	// random identifiers
